@@ -29,6 +29,14 @@ impl TableStrategy {
             None => v,
         }
     }
+    /// consumer-dependent comparison: class of `v` as seen by downstream `d` (key "d\u{1}v"), falling back to the
+    /// class of the whole value
+    fn class_for<'a>(&'a self, d: &str, v: &'a str) -> &'a str {
+        match self.classes.get(&format!("{}\u{1}{}", d, v)) {
+            Some(c) => c,
+            None => self.class(v),
+        }
+    }
 }
 
 impl PPGEvaluatorStrategy for TableStrategy {
@@ -38,10 +46,10 @@ impl PPGEvaluatorStrategy for TableStrategy {
             _ => self.present.contains(query),
         }
     }
-    fn is_history_altered(&self, _u: &str, _d: &str, last: &str, cur: &str) -> bool {
+    fn is_history_altered(&self, _u: &str, d: &str, last: &str, cur: &str) -> bool {
         match self.mode {
             Mode::Ident => last != cur,
-            Mode::Rel => self.class(last) != self.class(cur),
+            Mode::Rel => self.class_for(d, last) != self.class_for(d, cur),
             Mode::Prod => {
                 if last == cur {
                     false
@@ -165,7 +173,7 @@ fn run_scenario(lines: &[String], out: &mut dyn Write) {
             "strategy" => {
                 strat.mode = match f[1] {
                     "ident" => Mode::Ident,
-                    "rel" => Mode::Rel,
+                    "rel" | "reld" => Mode::Rel,
                     "prod" => Mode::Prod,
                     o => panic!("bad strategy {}", o),
                 }
